@@ -245,3 +245,13 @@ Proof.
     injection E0 as _ _ _ Ep E2. unfold tranges, ranges. cbn [flat_map]. rewrite Ep. f_equal. apply IH. exact E2. }
   rewrite K. exact Hr.
 Qed.
+
+(** C12: [C12_macro_free_no_residue] *)
+Lemma mf_C12_macro_free_no_residue : forall (msep : bool) (src : list char),
+  macro_free (body_of src) = true ->
+  let e := lr_end (lex (mkCfg false msep) src) in
+  s_cp e = None /\ s_mnl e = 0 /\ (s_modes e = [MDefault] \/ s_modes e = [MStringExpr true; MDefault]).
+Proof.
+  intros msep src H. pose proof (lex_is_reflex_macro_free msep src H) as G. cbv zeta in G |- *.
+  destruct (reflex src) as [[T E] lit]. destruct G as (_ & _ & _ & _ & _ & _ & _ & _ & G9 & G10 & G11). auto.
+Qed.
